@@ -31,12 +31,15 @@ def item_names(p, n):
 # ---------------------------------------------------------------------------------------------
 
 def inner_graph(kind, mapped, fail_vals=(), branch_vals=()):
-    """mapped: list of mapped parameter names among x, y; 'b' is a broadcast parameter."""
-    ins = list(mapped) + ["b"]
+    """mapped: list of mapped parameter names among x, y (map_over listing order; mapped[0] keys the
+    failing / branching items); 'b' is a broadcast parameter.  The functions take their parameters in
+    ALPHABETICAL order, so that the listing order of map_over may differ from the signature order."""
+    mapped = list(mapped)
+    ins = sorted(mapped) + ["b"]
     if kind == "single":
         nodes = [IR.func("F", ins, ["p"], fail_args=list(fail_vals))]
     elif kind == "chain":
-        nodes = [IR.func("F", list(mapped), ["p"], fail_args=list(fail_vals)), IR.func("H", ["p", "b"], ["q"])]
+        nodes = [IR.func("F", sorted(mapped), ["p"], fail_args=list(fail_vals)), IR.func("H", ["p", "b"], ["q"])]
     elif kind == "chain2":
         # the item fails in its SECOND node, after `p` has already been produced
         m0 = mapped[0]
@@ -79,8 +82,9 @@ def mapping_job(rng, kind, mapped, lens, mode_map, eh, runner_mode, rename, fail
     wrapper_out = [(o + "_list" if rename else o) for o in outs]
     gn = IR.graph_node(sub, name="inner", inputs=wrapper_in, inmap=[[w, p] for w, p in zip(wrapper_in, ins)],
                        outputs=wrapper_out, outmap=[[o, w] for o, w in zip(outs, wrapper_out)],
-                       map_over=[w for w, p in zip(wrapper_in, ins) if p in mapped], map_mode=mode_map, map_eh=eh,
+                       map_over=[(m + "s" if rename else m) for m in mapped], map_mode=mode_map, map_eh=eh,
                        clone=clone or [IR.NONE])
+    gn["map_first"] = bool(rename and rng.random() < 0.5)      # map_over configured BEFORE the wrapper is renamed
     consumer = IR.func("C", [wrapper_out[0]], ["out"])
     nodes = [gn, consumer] if rng.random() < 0.5 else [consumer, gn]
     if gen_source:
